@@ -1,11 +1,18 @@
 ENGINES = [
-    {"name": "gosched", "path": "vrt/ explore/ instr/", "serves_properties": ["C03", "C04"],
+    {"name": "gosched", "path": "vrt/ explore/ instr/", "serves_properties": ["C02", "C03", "C04"],
      "kind_free_text": "stateless model checker for Go: AST instrumenter rewrites go/chan/select/sync/atomic/time/context onto a cooperative scheduler (vrt); explorer does DFS over schedules and environment choices with iterative preemption bounding, work-splitting over worker processes, replay files"},
 ]
 NOTES = "All checks rebuild from /repo's working tree through bin/prepare (instrument + overlay); exit 2 = engine/build error (never a verdict)."
 NOT_APPLICABLE = {}
 A_NOTE = "Trusted: the vrt shims model Go's mutex/cond/channel/select/timer semantics faithfully (self-tests + repository tests pass on the instrumented build in passthrough mode); sequential consistency; scheduling points before acquire-type operations only; data races are left to a separate -race pass."
 CHECKS = {
+    "C02": {
+        "engine": "gosched",
+        "technique": "stateless model checking of the real inmem watch ring under a controlled scheduler (iterative preemption bounding); delivered stream vs commit log at exact quiescence",
+        "text": "Every schedule (quick: bound 0 with free switches at every write and receive for 6-write scripts on 8 history configurations x 5 watch flavours, bound 1 for 4-write, bound 2 for 3-write scripts, two concurrent subscribers; thorough: 9-write scripts and higher bounds) of a scripted writer (create/update/destroy/re-create over two ids plus a foreign kind) against subscribers that start and consume at scheduler-chosen moments runs on the real collection.go; the delivered stream must equal the commit log from some start index inside the Watch call window (contiguous, in order, exactly once, correct Old values, bootstrap snapshot = state at that index, strictly increasing bookmarks, nothing from other kinds/ids) or end in one terminal Errored, which is forbidden when the subscriber never lagged more than the initial capacity.",
+        "design_ref": "DESIGN.md 3/C02",
+        "note": A_NOTE,
+    },
     "C03": {
         "engine": "gosched",
         "technique": "stateless model checking of the real lifecycle helpers under a controlled scheduler (iterative preemption bounding; exact quiescence); commit-log and modelled-watch-event oracles",
